@@ -68,6 +68,14 @@ func c09Pre(pre int) *stun.Message {
 		m.TransactionID = [12]byte{0xEE, 0xEE, 0xEE, 0xEE, 0xEE, 0xEE, 0xEE, 0xEE, 0xEE, 0xEE, 0xEE, 0xEE}
 		m.Type = stun.BindingError
 		return m
+	case 15: // attributes of RFC 8489 (and other registered ones the library has no type for) that a peer or the caller put there
+		m := stun.MustBuild(stun.BindingRequest, tid, stun.NewUsername("u"))
+		m.Add(stun.AttrType(0x001C), bytesOf(32))                    // MESSAGE-INTEGRITY-SHA256
+		m.Add(stun.AttrType(0x001D), []byte{0, 1, 0, 0})             // PASSWORD-ALGORITHM
+		m.Add(stun.AttrType(0x001E), bytesOf(32))                    // USERHASH
+		m.Add(stun.AttrType(0x8002), []byte{0, 1, 0, 0, 0, 2, 0, 0}) // PASSWORD-ALGORITHMS
+		m.Add(stun.AttrType(0x8003), []byte("example.org"))          // ALTERNATE-DOMAIN
+		return m
 	case 100, 101, 102, 103: // a message that is full, or nearly: what still fits is the precondition's business, what a setter refuses anyway is not
 		m := new(stun.Message)
 		m.TransactionID = [12]byte{1, 2, 3, 4, 5, 6, 7, 8, 9, 10, 11, 12}
@@ -385,7 +393,7 @@ func init() {
 					c.Sample(k)
 				}
 			}
-			for pre := 0; pre < 15; pre++ {
+			for pre := 0; pre < 16; pre++ {
 				for _, ts := range []struct {
 					name string
 					max  int
